@@ -26,6 +26,18 @@ static int ntab;
 static size_t base_bytes;
 static int have_base;
 
+/* a corrupted structure can make the library loop or allocate without end: bound both */
+const char *__asan_default_options(void) { return "hard_rss_limit_mb=4096"; }
+static void on_alarm(int sig)
+{
+	static const char msg[] = "\nFAULT timeout (operation did not return within 3 s)\n";
+	(void) sig;
+	if (write(1, msg, sizeof(msg) - 1) < 0) { }
+	_exit(99);
+}
+static int abandoned;   /* a script ended with a broken structure: its nodes were given up, not freed */
+static int dead_script; /* the current script has shown a broken structure: no further library calls */
+
 static char outbuf[1 << 20];
 static size_t outlen;
 static char broken[256];
@@ -139,6 +151,7 @@ static void result(const char *verdict, const char *ret)
 {
 	walk_all();
 	printf("R %s | C %s | I ret=%s\n", verdict, broken[0] ? broken : outbuf, ret);
+	if (broken[0]) dead_script = 1;
 }
 static void result_n(const char *verdict, long v)
 {
@@ -183,6 +196,13 @@ static MPT_STRUCT(node) *top_of(MPT_STRUCT(node) *n)
 static int cleanup(void)
 {
 	int i;
+	if (dead_script) {
+		/* never walk or free a structure that is known to be corrupt */
+		if (ntab) abandoned = 1;
+		ntab = 0;
+		dead_script = 0;
+		return 0;
+	}
 	for (i = 0; i < ntab; i++) {
 		MPT_STRUCT(node) *n;
 		if (!tab[i].alive) continue;
@@ -236,7 +256,9 @@ int main(void)
 {
 	static char line[1 << 16];
 	drv_init();
+	signal(SIGALRM, on_alarm);
 	while (fgets(line, sizeof(line), stdin)) {
+		alarm(0);
 		MPT_STRUCT(node) *a = 0, *b = 0, *c = 0;
 		const char *op;
 		int pos;
@@ -251,6 +273,11 @@ int main(void)
 		}
 		if (!have_base) { base_bytes = __sanitizer_get_current_allocated_bytes(); have_base = 1; }
 		drv_split(line);
+		if (dead_script && !(drv_nw == 2 && !strcmp(drv_w[0], "n") && !strcmp(drv_w[1], "begin"))) {
+			puts("R skipped | C BROKEN:earlier | I ret=-");
+			continue;
+		}
+		alarm(3);
 		if (drv_nw < 2 || strcmp(drv_w[0], "n")) { puts("bad-op"); continue; }
 		op = drv_w[1];
 		if (!strcmp(op, "new") && drv_nw == 4) {
@@ -359,6 +386,8 @@ int main(void)
 		}
 		else puts("bad-op");
 	}
+	alarm(0);
 	cleanup();
+	if (abandoned) { fflush(stdout); _exit(0); }   /* given-up nodes are not leaks of the code under test */
 	return 0;
 }
